@@ -139,6 +139,8 @@ let install register get getn geti getb =
     end;
     if a_ok && not (is_request_kind p) then
       (match p with PVersion _ -> () | _ -> add ("decBresp=" ^ res_s canon (decB_response (drop 4 ea))));
+    (* INIT and VERSION through codec B's own decoders *)
+    (match p with PInit _ | PVersion _ -> if a_ok then add ("decBiv=" ^ res_s canon (decB_initversion (drop 4 ea))) | _ -> ());
     String.concat " " (List.rev !out));
   (* arbitrary bytes into the decoding entry points *)
   register "decA" (fun kv ->
